@@ -616,8 +616,15 @@ where
                         )));
                     }
                     Some(content) => {
-                        // TODO check length
-                        io::copy(&mut content.take(*length), dest)?;
+                        let copied = io::copy(&mut content.take(*length), dest)?;
+                        if copied != *length {
+                            // The block header already announces `length` bytes
+                            return Err(io::Error::new(
+                                io::ErrorKind::UnexpectedEof,
+                                "Data source ends before the announced size",
+                            )
+                            .into());
+                        }
                     }
                 }
                 Ok(())
